@@ -567,3 +567,153 @@ func TestRestartKeepsDedup(t *testing.T) {
 }
 
 var _ = nfpb.Entry{}
+
+// TestInPlaceUpdatesSurvive: expirations and in-place edits (which do not create a new silence id)
+// made after a snapshot must be in the next completed snapshot - the shutdown one, or the periodic
+// one that a later kill leaves behind.
+func TestInPlaceUpdatesSurvive(t *testing.T) {
+	run := vf.Cur()
+	sub := run.Sub("in-place-updates-survive", "real app in virtual time with maintenance every 15 min: two silences are created and notifications sent, a periodic snapshot completes, then one silence is expired and the other extended IN PLACE (same id), and further notifications are logged; variant 'shutdown': the instance is stopped and restarted on its data directory; variant 'kill': one more periodic snapshot is awaited, the data directory is copied as it is on disk (what a kill -9 leaves) and an instance is started on the copy; required on the restarted instance: the expired silence is expired and no longer mutes, the extended one has its new end and still mutes, the newest log entry per group prevents a repeat; non-trivial = every case; distinct by (seed, variant)", 8)
+	n := run.N(24, 800)
+	vf.Parallel(t, n, 16, func(t *testing.T, i int) {
+		r := sub.Rand(i)
+		variant := []string{"shutdown", "kill"}[i%2]
+		gw, gi, ri := time.Second, 30*time.Second, 6*time.Hour
+		gb := []string{"alertname"}
+		cfg := &scen.Config{ResolveTimeout: 5 * time.Minute, Route: &model.RouteSpec{Receiver: "r0", GroupBy: &gb, GroupWait: &gw, GroupInterval: &gi, RepeatInterval: &ri},
+			Receivers: []scen.Receiver{{Name: "r0", Integs: []scen.Integ{{SendResolved: true}}}}}
+		dir := sysrun.ScratchDir("C11", "inplace", i)
+		defer os.RemoveAll(dir)
+		synctest.Test(t, func(t *testing.T) {
+			log := &sim.Log{}
+			in, err := sim.Start(sim.Options{ConfigYAML: cfg.YAML(), Dir: dir, Log: log, MaintenanceInterval: 15 * time.Minute})
+			if err != nil {
+				t.Fatal(err)
+			}
+			stopped := false
+			defer func() {
+				if !stopped {
+					in.Stop()
+				}
+			}()
+			far := time.Now().Add(20 * time.Hour)
+			mk := func(name string) sim.PostableSilence {
+				return sim.PostableSilence{Matchers: sim.APIMatchers([]model.Matcher{{Name: "alertname", Op: "=", Value: name}}), StartsAt: time.Now(), EndsAt: time.Now().Add(2 * time.Hour), CreatedBy: "v", Comment: "c-" + name}
+			}
+			_, idX, _ := in.PostSilence(mk("X"))
+			time.Sleep(time.Millisecond)
+			_, idS, _ := in.PostSilence(mk("S"))
+			alerts := []sim.PostableAlert{{Labels: model.Labels{"alertname": "A"}, EndsAt: &far}, {Labels: model.Labels{"alertname": "X"}, EndsAt: &far}, {Labels: model.Labels{"alertname": "S"}, EndsAt: &far}}
+			time.Sleep(time.Second)
+			in.PostAlerts(alerts...)
+			// at least one periodic snapshot of this state
+			time.Sleep(16*time.Minute + time.Duration(r.Intn(5))*time.Minute)
+			// in-place updates: expire X, extend S (same matchers, same start => same id)
+			if c := in.DeleteSilence(idX); c != 200 {
+				sub.Inconclusive(fmt.Sprintf("DELETE silence -> %d", c))
+				return
+			}
+			time.Sleep(time.Millisecond)
+			_, cur := in.GetSilence(idS)
+			if cur == nil {
+				sub.Inconclusive("silence S not found")
+				return
+			}
+			newEnd := time.Now().Add(10 * time.Hour).Truncate(time.Millisecond)
+			c2, idS2, body := in.PostSilence(sim.PostableSilence{ID: idS, Matchers: cur.Matchers, StartsAt: cur.StartsAt, EndsAt: newEnd, CreatedBy: "v", Comment: "extended"})
+			if c2 != 200 || idS2 != idS {
+				sub.Inconclusive(fmt.Sprintf("in-place extension -> %d id %s (was %s) %s", c2, idS2, idS, body))
+				return
+			}
+			// alert X is now notified (its silence is gone): a log entry written after the last snapshot
+			time.Sleep(2 * time.Minute)
+			xNotified := false
+			for _, a := range log.Attempts() {
+				for _, al := range a.Alerts {
+					if al.Labels["alertname"] == "X" && a.Outcome == "ok" {
+						xNotified = true
+					}
+				}
+			}
+			if !xNotified {
+				sub.Violation("alert-not-notified-after-its-silence-was-expired", map[string]any{"seed": sub.Seed(i)})
+				return
+			}
+			startDir := dir
+			if variant == "kill" {
+				// the next periodic snapshot must contain the in-place updates; then the process dies
+				time.Sleep(16 * time.Minute)
+				img := dir + "-image"
+				defer os.RemoveAll(img)
+				os.MkdirAll(img+"/data", 0o755)
+				for _, f := range []string{"silences", "nflog"} {
+					if b, err := os.ReadFile(dir + "/data/" + f); err == nil {
+						os.WriteFile(img+"/data/"+f, b, 0o644)
+					}
+				}
+				startDir = img
+			}
+			before := len(log.Attempts())
+			tRestart := time.Now()
+			in.Stop()
+			stopped = true
+			in2, err := sim.Start(sim.Options{ConfigYAML: cfg.YAML(), Dir: startDir, Log: log, KeepData: true, MaintenanceInterval: 15 * time.Minute})
+			if err != nil {
+				sub.Violation("instance-refuses-to-start-on-its-own-data-directory", map[string]any{"err": err.Error(), "variant": variant})
+				return
+			}
+			defer in2.Stop()
+			w := map[string]any{"seed": sub.Seed(i), "variant": variant}
+			_, gx := in2.GetSilence(idX)
+			_, gs := in2.GetSilence(idS)
+			if gx == nil || gx.Status.State != "expired" {
+				st := "not found"
+				if gx != nil {
+					st = gx.Status.State + " until " + gx.EndsAt.Sub(tRestart).String()
+				}
+				w["silence"], w["state_after_restart"] = idX, st
+				sub.Violation("expired-silence-active-again-after-restart", w)
+				return
+			}
+			if gs == nil || !gs.EndsAt.Equal(newEnd) || gs.Comment != "extended" {
+				w["silence"] = idS
+				if gs != nil {
+					w["end_after_restart"], w["comment"] = gs.EndsAt.Sub(tRestart).String(), gs.Comment
+				}
+				w["expected_end"] = newEnd.Sub(tRestart).String()
+				sub.Violation("in-place-edit-of-a-silence-lost-after-restart", w)
+				return
+			}
+			time.Sleep(time.Second)
+			in2.PostAlerts(alerts...)
+			time.Sleep(30 * time.Minute)
+			_, got := in2.GetAlerts("")
+			for _, ga := range got {
+				switch ga.Labels["alertname"] {
+				case "X":
+					if len(ga.Status.SilencedBy) != 0 {
+						w["silenced_by"] = ga.Status.SilencedBy
+						sub.Violation("expired-silence-active-again-after-restart", w)
+						return
+					}
+				case "S":
+					if len(ga.Status.SilencedBy) != 1 || ga.Status.SilencedBy[0] != idS {
+						sub.Violation("silence-not-effective-after-restart", w)
+						return
+					}
+				}
+			}
+			var dup []string
+			for _, a := range log.Attempts()[before:] {
+				dup = append(dup, fmt.Sprintf("%s %v at +%s after restart, reason %q", a.Key(), a.Firing(), a.Start.Sub(tRestart), a.Reason))
+			}
+			if len(dup) > 0 {
+				w["attempts_after_restart"] = dup
+				sub.Violation("notification-repeated-after-restart-before-repeat-interval", w)
+				return
+			}
+			sub.Seen("variants", variant)
+			sub.Case(vf.Digest(sub.Seed(i), variant), true)
+		})
+	})
+}
